@@ -1,11 +1,11 @@
 (* C05 property theorems about CONCURRENT executions of one SCQ ring (small-step model Scq.v: every atomic
    access of uint64SCQ.Enqueue / Dequeue / fixstate is one step of one thread; any number of threads; any
    schedule; sequentially consistent atomics).  Nothing but statements closed by [exact] and Print Assumptions. *)
-From Coq Require Import ZArith List Bool.
+From Coq Require Import ZArith List Bool Lia.
 Import ListNotations.
 From VF Require C05.Model.
 From VF Require Import C05.Aspects C05.Lin.
-From VF Require Import C05.Scq C05.ProofsScqInv C05.ProofsScqSafe C05.ProofsScqMutant C05.ProofsScqTie C05.ProofsScqOrd C05.ProofsScqFifo.
+From VF Require Import C05.Scq C05.ProofsScqInv C05.ProofsScqSafe C05.ProofsScqMutant C05.ProofsScqTie C05.ProofsScqOrd C05.ProofsScqFifo C05.ProofsScqThr C05.ProofsScqEmpty.
 Open Scope Z_scope.
 
 (* (a) the structural invariant [Inv] (ProofsScqInv.v) holds in every reachable state, for every ring size n >= 1,
@@ -144,6 +144,67 @@ Theorem C05_scq_threshold_refuted :
   (forall i a b v, ~ In (i, a, b, EvEnq v None) (trace st)) /\
   ~ EmptyJustified (hist_of (trace st)) /\ ~ fifo_linearizable (hist_of (trace st)).
 Proof. exact threshold_refuted. Qed.
+(* (d) COMPLETED UNDER THE THREAD BOUND.  The two refutations above leave exactly one case: at most K <= n + 1 threads
+   (the published SCQ assumes at most n; for this code, whose threshold is 2n-1 on a ring of n slots, n + 1 is the
+   exact bound: exploration of the model finds false empty answers with n + 2 threads for n = 1..4 and none with
+   n + 1), the ring is never closed (no LClose) and no Enqueue returns false (the ring never runs full) - which is
+   how LSCQ uses a ring until it closes it.  Then the threshold always covers what is still to be charged to it:
+   for every Enqueue that has returned with ticket T >= head and is not dequeued yet,
+       threshold >= (dequeuers inside an iteration that will end in a decrement)
+                    + (unwritten tail tickets in [head, T))                                   (t_bud of [Thr])
+   because at the moment the threshold is (re)set to 2n-1 the unwritten tickets in front of T are either among
+   the n-1 tickets right after head (a ticket given up by a non-failing Enqueue satisfies x + 2 <= head + n) or
+   held by an enqueuer still in flight, and stale dequeuers and in-flight enqueuers are different threads, none
+   of them the enqueuer of T: (K-1) + (n-1) <= 2n-1. *)
+Theorem C05_scq_threshold_budget : forall n, 1 <= n -> forall K, Z.of_nat K <= n + 1 -> forall sched,
+  good n K (init n) sched -> Thr n K (run n (init n) sched).
+Proof. exact thr_reach. Qed.
+(* hence every empty answer is justified: in every quiescent state reached by at most K <= n + 1 threads without
+   LClose and without a failed Enqueue, each Dequeue that answered empty has an instant inside its call at which
+   no value is definitely inside (EmptyJustified, the fourth condition, in the form C05_scq_lin_if_empty_justified
+   consumes) ... *)
+Theorem C05_scq_empty_justified_bounded : forall n, 1 <= n -> forall K, Z.of_nat K <= n + 1 -> forall sched,
+  Forall (lab_ok K) sched ->
+  let st := run n (init n) sched in
+  (forall i a b v, ~ In (i, a, b, EvEnq v None) (trace st)) ->
+  quiescent st -> EmptyJustified (hist_of (trace st)).
+Proof.
+  intros n Hn K HK sched Hl st Hno Hq. apply (scq_empty_justified_bounded n Hn K HK sched); [|exact Hq].
+  now apply good_of_trace.
+Qed.
+(* ... and the completed calls are LINEARIZABLE with respect to the FIFO queue (definition of Common/Hist.v) *)
+Theorem C05_scq_linearizable_bounded : forall n, 1 <= n -> forall K, Z.of_nat K <= n + 1 -> forall sched,
+  Forall (lab_ok K) sched ->
+  let st := run n (init n) sched in
+  (forall i a b v, ~ In (i, a, b, EvEnq v None) (trace st)) ->
+  quiescent st -> fifo_linearizable (hist_of (trace st)).
+Proof.
+  intros n Hn K HK sched Hl st Hno Hq. apply (scq_linearizable_bounded n Hn K HK sched); [|exact Hq].
+  now apply good_of_trace.
+Qed.
+(* non-vacuity of the bounded theorems: three threads on a ring of two slots (K = 3 = n + 1), interleaved, with an
+   empty answer, ending quiescent, no failed Enqueue *)
+Example C05_scq_bounded_nonvacuous :
+  let sched := [LEnq 0 7; LDeq 2; LStep 0; LStep 2; LStep 0; LEnq 1 8; LStep 1; LStep 0; LStep 1; LStep 1; LStep 0;
+                LStep 0; LStep 1; LStep 1; LDeq 2; LStep 2; LStep 2; LStep 2; LDeq 0; LStep 0; LStep 2; LStep 2;
+                LStep 0; LStep 0; LStep 0; LStep 0; LDeq 1] ++ repeat (LStep 1) 9 in
+  let st := run 2 (init 2) sched in
+  Forall (lab_ok 3) sched /\ quiescent st /\ (forall i a b v, ~ In (i, a, b, EvEnq v None) (trace st)) /\
+  map (fun x => (fst (fst (fst x)), snd x)) (trace st) =
+    [(2%nat, EvDeq None); (0%nat, EvEnq 7 (Some 2)); (1%nat, EvEnq 8 (Some 3)); (2%nat, EvDeq (Some (2, 7)));
+     (0%nat, EvDeq (Some (3, 8))); (1%nat, EvDeq None)].
+Proof.
+  cbv zeta. split; [|split; [|split]].
+  - repeat (constructor; [cbn; auto; lia|]). constructor.
+  - intros i. do 3 (destruct i as [|i]; [vm_compute; reflexivity|]). vm_compute. reflexivity.
+  - intros i a b v Hin.
+    match type of Hin with In _ (trace ?S) =>
+      assert (Hf : forallb (fun x => match snd x with EvEnq _ None => false | _ => true end) (trace S) = true) by (vm_compute; reflexivity)
+    end.
+    rewrite forallb_forall in Hf. specialize (Hf _ Hin). discriminate Hf.
+  - vm_compute. reflexivity.
+Qed.
+
 (* the real-time order facts behind (d): tickets follow the order of calls *)
 Theorem C05_scq_ticket_order : forall n, 1 <= n -> forall sched, Ord (run n (init n) sched).
 Proof. exact ord_reach. Qed.
@@ -195,3 +256,6 @@ Print Assumptions C05_scq_lin_if_empty_justified.
 Print Assumptions C05_scq_empty_refuted.
 Print Assumptions C05_scq_ticket_order.
 Print Assumptions C05_scq_threshold_refuted.
+Print Assumptions C05_scq_threshold_budget.
+Print Assumptions C05_scq_empty_justified_bounded.
+Print Assumptions C05_scq_linearizable_bounded.
